@@ -2327,6 +2327,15 @@ def run(ck: core.Check):
         except Exception as e:  # noqa: BLE001
             ck.broken("correspondence", "public tensor/type oracle not observable", f"{type(e).__name__}: {e}")
         try:
+            from harness import lib_attrhistory
+
+            hist = lib_attrhistory.run_c11(ck, env, stats, rng=ck.rng)
+            ck.count(("attr-history", stats.get("attr_history", {}).get("steps")))
+            for k, what, doc in hist[:12]:
+                ck.failure(k, what, doc)
+        except Exception as e:  # noqa: BLE001
+            ck.broken("correspondence", "attribute histories (lib_attrhistory) not observable", f"{type(e).__name__}: {e}")
+        try:
             from harness import lib_c11schemas
 
             lib_c11schemas.run(ck, env, stats)
@@ -2427,6 +2436,10 @@ def replay(ck: core.Check, doc) -> bool:
         print("outcome:", r["status"], r.get("err"), str(r.get("proto")).replace("\n", " ")[:300])
         if r["status"] != "unobservable":
             verdicts += SP.judge(env, mid, op, schema, c["case"], r["status"], r["mro"], r["err"], r["proto"])
+    if c.get("kind") == "attr-history":
+        from harness import lib_attrhistory
+
+        verdicts += [(k, w) for k, w, _ in lib_attrhistory.run_c11(None, env, {}, steps=c["case"]["steps"])]
     if c.get("kind") == "schema-lookup":
         from harness import lib_c11schemas
 
